@@ -8,3 +8,4 @@ for id in "$@"; do
   echo "== $id ($tier): $(echo "$out" | head -1)"
 done
 git -C /verif checkout -- lean/Generated 2>/dev/null
+git -C /verif checkout -- evidence 2>/dev/null   # a dev run against a scratch tree must not leave its evidence behind
